@@ -12,9 +12,9 @@ TB = ("Trusted base: Lean 4.33 kernel (axioms propext, Classical.choice, Quot.so
 CHECKS = {
     "C01": dict(
         text="Proof: validation walk of the trie model = RFC 6811 over the flat record list, for every well-formed table (all "
-             "tables reachable by any add/remove/src-remove history), every query, both families; reasons clause included; IPv4 bit "
-             "code linked to the abstract bit view by theorem. Tie: model vs trie.c/trie-pfx.c on random histories incl. trie shape.",
-        note=TB + "IPv6 four-word bit cascade linked by correspondence only (ops left/cov), not by theorem. Single-threaded; no allocation failure.",
+             "tables reachable by any add/remove/src-remove history), every query, both families; reasons clause included; IPv4 and IPv6 bit "
+             "code (lrtr_get_bits, the four-word cascade of lrtr_ipv6_get_bits) linked to the abstract bit view by theorem. Tie: model vs trie.c/trie-pfx.c on random histories incl. trie shape.",
+        note=TB + "Single-threaded; no allocation failure (C16, C18).",
         technique="Lean 4 theorems (structural induction over the trie, invariant WF) + differential correspondence of the executable model",
         design="§5 C01"),
     "C02": dict(
@@ -25,9 +25,9 @@ CHECKS = {
         design="§5 C02"),
     "C09": dict(
         text="Proof: the callback log replays, without any spurious/repeated entry, to exactly the table contents after every history of "
-             "add/remove/src_remove and after destruction (log_replays, free_log). PARTIAL: the net-difference claim for atomic reload "
-             "(pfx_table_notify_diff) is decided by correspondence + oracle on reload histories, not yet by a Lean theorem.",
-        note=TB + "notifyDiff modelled and corresponded but its net-difference theorem is missing (partial).",
+             "add/remove/src_remove, atomic reloads (copy_except_socket + swap + notify_diff: exactly the net difference for the reloading cache is "
+             "reported, notifyDiff_net / reload_log_replays / log_replays_reload) and after destruction (free_log).",
+        note=TB + "Rollback of a failed synchronisation is a sequence of add/remove (covered by log_replays); the sync-driven histories themselves are tied by the rtr correspondence (C03).",
         technique="Lean 4 invariant over operation histories (ghost callback log) + differential correspondence",
         design="§5 C09"),
 }
